@@ -21,7 +21,7 @@ const preamble = `(declare-fun strkey ((Array Int Int) Int Int) Int)
 (declare-fun subIdx (Int) Int)
 (assert (forall ((r Int) (k Int)) (! (and (= (subBase (sub r k)) r) (= (subIdx (sub r k)) k) (< (sub r k) 0)) :pattern ((sub r k)))))
 (define-fun streq ((a1 (Array Int Int)) (o1 Int) (n1 Int) (a2 (Array Int Int)) (o2 Int) (n2 Int)) Bool
-  (and (= n1 n2) (forall ((i Int)) (=> (and (<= 0 i) (< i n1)) (= (select a1 (+ o1 i)) (select a2 (+ o2 i)))))))
+  (and (= n1 n2) (forall ((j Int)) (=> (and (<= o1 j) (< j (+ o1 n1))) (= (select a1 j) (select a2 (+ o2 (- j o1))))))))
 `
 
 // specFuncSMT renders the spec functions in `used` (transitively closed) in dependency order.
